@@ -382,8 +382,9 @@ func build(class, variant string, seed int64, multiBytes int) (*content, error) 
 	case class == "BAlign":
 		data, err = alignedAtB(variant, gen, seed)
 	case class == "4Bp":
-		// a little more than four blocks: 4*blockB+1 .. 4*blockB+4000, seeded
-		data, err = withFrameLen(variant, gen, 4*blockB+1+int(seed%4000), seed)
+		// a little more than four blocks, seeded; from +5 on, so that the fifth block never holds
+		// just the end mark (that situation is class "Bp4")
+		data, err = withFrameLen(variant, gen, 4*blockB+5+int(seed%4000), seed)
 	case class == "multi":
 		var b bytes.Buffer
 		for i := 0; b.Len() < multiBytes; i++ {
